@@ -285,15 +285,53 @@ theorem lexFrom_comment (c : UInt8) (body rest : Bytes) (line : Nat)
   simp only [List.take_left', List.drop_left']
   rw [go_eq_lexFrom' _ [] _ rest (by simp)]
 
-theorem commentText_single (text : Bytes) (h0 : text ≠ []) (h10 : 10 ∉ text) :
-    commentText text = 45 :: 45 :: text := by
-  simp [commentText, h0, h10]
+theorem dropWhile_eq_drop_countEq (t : Bytes) : t.dropWhile (· == 61) = t.drop (countEq t) := by
+  induction t with
+  | nil => rfl
+  | cons c r ih =>
+    by_cases hc : c = 61
+    · subst hc; simp [List.dropWhile_cons, countEq, ih]
+    · simp [List.dropWhile_cons, countEq, hc]
 
-theorem commentText_multi (text : Bytes) (h10 : 10 ∈ text) :
+/-- the model's `starts_with_long_bracket` is the reference lexer's "a long bracket opens here" -/
+theorem startsWithLongBracket_eq (t : Bytes) : startsWithLongBracket t = (longOpen? t).isSome := by
+  cases t with
+  | nil => rfl
+  | cons c r =>
+    by_cases hc : c = 91
+    · subst hc
+      simp only [startsWithLongBracket, longOpen?, dropWhile_eq_drop_countEq]
+      cases h : r.drop (countEq r) with
+      | nil => simp
+      | cons d u =>
+        by_cases hd : d = 91
+        · subst hd; simp
+        · simp only [List.head?_cons]
+          have : (some d == some (91 : UInt8)) = false := by simp [hd]
+          rw [this]
+          split
+          · next heq => simp at heq; exact absurd heq.1 hd
+          · rfl
+    · unfold startsWithLongBracket longOpen?
+      split
+      · next heq => simp at heq; exact absurd heq.1 hc
+      · split
+        · next heq => simp at heq; exact absurd heq.1 hc
+        · rfl
+
+theorem useLongForm_false (text : Bytes) (h : useLongForm text = false) :
+    10 ∉ text ∧ 13 ∉ text ∧ longOpen? text = none := by
+  simp only [useLongForm, Bool.or_eq_false_iff, startsWithLongBracket_eq] at h
+  refine ⟨by simpa using h.1.1, by simpa using h.1.2, by simpa using h.2⟩
+
+theorem commentText_single (text : Bytes) (h0 : text ≠ []) (hl : useLongForm text = false) :
+    commentText text = 45 :: 45 :: text := by
+  simp [commentText, h0, hl]
+
+theorem commentText_multi (text : Bytes) (h0 : text ≠ []) (hl : useLongForm text = true) :
     commentText text = 45 :: 45 :: 91 :: (List.replicate (findLevel (text.length + 1) 0 text) 61
       ++ 91 :: 10 :: (text ++ 10 :: closer (findLevel (text.length + 1) 0 text))) := by
-  have h0 : text ≠ [] := by intro h; subst h; simp at h10
-  simp [commentText, h0, h10, closeComment_eq_closer]
+  simp [commentText, h0, hl, closeComment_eq_closer]
 
 /-- Single-line branch, any continuation `rest` that is empty or starts with a line break. -/
 theorem single_line_scan (text rest : Bytes) (h13 : 13 ∉ text) (h10 : 10 ∉ text)
@@ -517,9 +555,9 @@ theorem attachComment_codeLines (loc : AppendLocation) (text : Bytes) (g : File)
 
 theorem commentText_nonempty (content : Bytes) (h0 : content ≠ []) :
     (commentText content).isEmpty = false := by
-  by_cases h10 : 10 ∈ content
-  · rw [commentText_multi content h10]; rfl
-  · rw [commentText_single content h0 h10]; rfl
+  cases hl : useLongForm content
+  · rw [commentText_single content h0 hl]; rfl
+  · rw [commentText_multi content h0 hl]; rfl
 
 /-! ### the tree of token carriers -/
 
